@@ -1,4 +1,4 @@
-import Obao.Proofs.CleanProofs
+import Obao.Proofs.TxnProofs
 /-! Paging: asking for the page after the last entry received until a page comes back empty enumerates the full
 child list, for every page size ≥ 1 (provided no child is the empty string). Core Lean only. -/
 namespace Obao.Listing
